@@ -533,7 +533,7 @@ def _hit_guarded_by(ctx, fb, cfg, fill_bi, sid, dep):
     return True
 
 
-def consistency_group(ctx, rule):
+def consistency_group(ctx, rule, include_memo=True, frame=True):
     """R10.b: the canonical mutation (Store::add) defines the group of fields that move with `records`; every other
     entry point that writes `records` writes the whole group"""
     facts = ctx.facts
@@ -561,8 +561,11 @@ def consistency_group(ctx, rule):
     for a in adders:
         group |= persistent(eff.trans(a.id))
     # memo cells depending on records belong to the group
-    for m in memo_cells(ctx, store):
-        group.add((sid, m))
+    memo_set = set((sid, m) for m in memo_cells(ctx, store))
+    if include_memo:
+        group |= memo_set
+    else:
+        group -= memo_set
     ctx.count("consistency_group_size", len(group))
     gnames = sorted("%s.%s" % (a.rsplit("::", 1)[-1], f) for a, f in group)
     ctx.floor(rule, "group_members", len(group), 4)
@@ -571,12 +574,12 @@ def consistency_group(ctx, rule):
     group_adts = set(a for a, _ in group)
     settings = set()
     for f in store["variants"][0]["fields"]:
-        if (sid, f["name"]) in group:
+        if (sid, f["name"]) in group or (sid, f["name"]) in memo_set:
             continue
         if any(a in group_adts for a in eff._adts_in_type(f["ty"])):
             continue        # container of group members (e.g. the index cell)
         settings.add((sid, f["name"]))
-    for w in writers:
+    for w in (writers if frame else []):
         te_all = eff.trans(w.id)
         touched = sorted(f for (a, f) in settings if (a, f) in te_all)
         key = "frame:%s" % w.id
